@@ -1,6 +1,7 @@
 package harness
 
 import (
+	"context"
 	"fmt"
 	"net"
 	"strings"
@@ -13,6 +14,7 @@ import (
 
 	"github.com/platinummonkey/go-concurrency-limits/core"
 	"github.com/platinummonkey/go-concurrency-limits/limit"
+	"github.com/platinummonkey/go-concurrency-limits/limiter"
 	ddreg "github.com/platinummonkey/go-concurrency-limits/metric_registry/datadog"
 	gmreg "github.com/platinummonkey/go-concurrency-limits/metric_registry/gometrics"
 	"github.com/platinummonkey/go-concurrency-limits/strategy"
@@ -443,6 +445,58 @@ func TestC20Names(t *testing.T) {
 					fail("limit-gauge", fmt.Sprintf("the strategy's gauge %q reports %v, the strategy enforces %d", core.MetricLimit, v, st.GetLimit()))
 				}
 			}
+		}
+	}
+}
+
+// the queue limiter's gauges: queue_limit reports the bound actually enforced (also when the configured size asked for the default),
+// queue_size the callers waiting
+func TestC20QueueGauges(t *testing.T) {
+	rep := NewReport("C20queue")
+	defer rep.Write(t)
+	for _, raw := range []int{-3, 0, 1, 5} {
+		for _, via := range []string{"config", "lifo"} {
+			synctest.Test(t, func(t *testing.T) {
+				reg := newRecRegistry()
+				g, _ := newGated(1)
+				var q *limiter.QueueBlockingLimiter
+				if via == "config" {
+					q = limiter.NewQueueBlockingLimiterFromConfig(g, limiter.QueueLimiterConfig{MaxBacklogSize: raw, MaxBacklogTimeout: time.Second, MetricRegistry: reg})
+				} else {
+					q = limiter.NewLifoBlockingLimiter(g, raw, time.Second, reg).QueueBlockingLimiter
+				}
+				enforced, _ := q.VerifBacklogConfig()
+				rep.Evaluations++
+				rep.Distinct("queue-gauges", fmt.Sprint(via, raw, enforced))
+				found := false
+				for k, sup := range reg.Gauges {
+					if strings.HasPrefix(k, "queue_limit") {
+						found = true
+						if v, _ := sup(); uint64(v) != enforced || v < 0 {
+							rep.Violate("queue:queue-limit-gauge", fmt.Sprintf("constructor %s with backlog size %d: gauge %s reports %v, the limiter enforces %d", via, raw, k, v, enforced), map[string]interface{}{"component": "queue-gauges", "via": via, "size": raw})
+						}
+					}
+				}
+				if !found {
+					rep.Violate("queue:queue-limit-gauge", fmt.Sprintf("constructor %s: no queue_limit gauge registered", via), map[string]interface{}{"component": "queue-gauges", "via": via, "size": raw})
+				}
+				// one holder, two waiters: queue_size follows
+				h, _ := q.Acquire(context.Background())
+				for i := 0; i < 2 && uint64(i) < enforced; i++ {
+					go q.Acquire(context.Background())
+					synctest.Wait()
+					for k, sup := range reg.Gauges {
+						if strings.HasPrefix(k, "queue_size") {
+							if v, _ := sup(); int(v) != i+1 {
+								rep.Violate("queue:queue-size-gauge", fmt.Sprintf("%d callers waiting, gauge %s reports %v", i+1, k, v), map[string]interface{}{"component": "queue-gauges", "via": via, "size": raw})
+							}
+						}
+					}
+				}
+				h.OnIgnore()
+				time.Sleep(5 * time.Second)
+				synctest.Wait()
+			})
 		}
 	}
 }
